@@ -36,6 +36,35 @@ class Obligation:
     RECENT = 34
 
     @staticmethod
+    def canon(e, depth=0, cache=None):
+        """canonical text of a term modulo the names of bound variables (alpha-equivalence)"""
+        if z3.is_quantifier(e):
+            n = e.num_vars()
+            vs = [z3.Const(f"bv!{depth}!{i}", e.var_sort(i)) for i in range(n)]
+            body = z3.substitute_vars(e.body(), *reversed(vs))
+            kind = "A" if e.is_forall() else ("E" if e.is_exists() else "L")
+            return f"({kind} {' '.join(str(e.var_sort(i)) for i in range(n))} {Obligation.canon(body, depth + 1)})"
+        if z3.is_app(e):
+            if e.num_args() == 0:
+                return e.sexpr()
+            return "(" + e.decl().name() + ":" + str(e.decl().kind()) + " " + " ".join(Obligation.canon(c, depth) for c in e.children()) + ")"
+        return e.sexpr()
+
+    def syntactic(self):
+        """the goal (or each of its top-level conjuncts) is literally one of the hypotheses (or one of their top-level conjuncts),
+        modulo bound-variable names"""
+        def conjuncts(f):
+            return [x for c in f.children() for x in conjuncts(c)] if z3.is_and(f) else [f]
+        try:
+            have = set()
+            for h in self.hyps:
+                for c in conjuncts(h):
+                    have.add(self.canon(c))
+            return all(self.canon(g) in have for g in conjuncts(self.goal))
+        except Exception:   # noqa
+            return False
+
+    @staticmethod
     def symbols(e):
         acc, seen, todo = set(), set(), [e]
         while todo:
@@ -492,6 +521,9 @@ class Engine:
         pass
 
     def apply_binds(self, callee, sub, cst, st):
+        pass
+
+    def bind_result(self, callee, sub, cst, st, res):
         pass
 
     def at_raise(self, o):
@@ -1763,6 +1795,8 @@ class Engine:
         else:
             res = self.fresh_result(callee, qual, cst, st)
         self.apply_binds(callee, sub, cst, st)
+        if res is not None and not isinstance(res, NoneV):
+            self.bind_result(callee, sub, cst, st, res)
         # the final values of the callee's ghost variables are existential witnesses of its ensures clauses
         for gname, gsort in list(callee.ghost_returns.items()) + [(n, s_[0]) for n, s_ in callee.ghost_vars.items()]:
             gv = V.fresh(gname, sort_of(gsort))
